@@ -48,7 +48,7 @@ def selector(draw, g):
     triples = g["triples"]
     subj = sorted({t[0][1] for t in triples if t[0][0] == "iri"})
     preds = sorted({t[1] for t in triples})
-    iri_objs = sorted({t[2][1] for t in triples if t[2][0] == "iri"})
+    iri_objs = sorted({t[2][1] for t in triples if t[2][0] == "iri" and "@" not in t[2][1]})    # one '@' per shape-map line (documented)
     kind = draw(st.sampled_from(["node", "focus", "focus", "sparql"]))
     if kind == "node" or not preds:
         return {"kind": "node", "iri": draw(st.sampled_from(subj or ["http://ex.org/n0"]))}
@@ -94,7 +94,8 @@ def cases(draw):
             case["ignore"] = draw(st.lists(st.sampled_from(IGNORABLE), min_size=1, max_size=2, unique=True))
         case["chan"] = draw(st.sampled_from(["raw", "raw", "raw", "file", "tsv", "turtle_iter", "rdflib"]))
         return case
-    g = draw(gg.general(bnodes=False, inst_props=(RDF_TYPE, RDF_TYPE, "http://ex.org/isA"), colon_locals=draw(st.integers(0, 2)) == 0))
+    g = draw(gg.general(bnodes=False, inst_props=(RDF_TYPE, RDF_TYPE, "http://ex.org/isA"), colon_locals=draw(st.integers(0, 2)) == 0,
+                        quirks=draw(gg.quirk_set(allowed=("odd_schemes", "odd_schemes", "ns_iris", "hash_props", "shared_locals", "class_typing"), one_in=3))))
     cfg = draw(gg.switches())
     cfg["instances_report_mode"] = "mixed"
     n = draw(st.integers(1, 3))
